@@ -27,7 +27,7 @@ use crate::error::Error;
 use super::{ExprType, FlagsState, GeneratorState};
 
 impl<'a> GeneratorState<'a> {
-    fn purge_deferred_plusplus_and_savey(&mut self) -> Result<(), Error> {
+    pub(crate) fn purge_deferred_plusplus_and_savey(&mut self) -> Result<(), Error> {
         let def = self.deferred_plusplus.clone();
         self.deferred_plusplus.clear();
         for d in def {
